@@ -112,12 +112,9 @@ func SetupNode(custom *config.Custom, store storage.Store, cache *ristretto.Cach
 	if err != nil {
 		return nil, fmt.Errorf("LoadConsensusNodes() => %v", err)
 	}
-	s, txs := node.persistStore.LastSnapshot()
-	if len(txs) == 1 {
-		err = node.reloadConsensusState(s.Snapshot, txs[0])
-		if err != nil {
-			return nil, fmt.Errorf("reloadConsensusState(%v) => %v", s, err)
-		}
+	err = node.repairConsensusState()
+	if err != nil {
+		return nil, fmt.Errorf("repairConsensusState() => %v", err)
 	}
 
 	err = node.LoadAllChainsAndGraphTimestamp(node.persistStore, node.networkId)
@@ -131,6 +128,48 @@ func SetupNode(custom *config.Custom, store storage.Store, cache *ristretto.Cach
 	logger.Printf("Node Id:\t%s\n", node.IdForNetwork.String())
 	logger.Printf("Topology:\t%d\n", node.TopoCounter.seq)
 	return node, nil
+}
+
+// repairConsensusState replays the consensus bookkeeping of every single
+// transaction snapshot stored after the last recorded consensus snapshot. The
+// record is written separately from the snapshot itself, and snapshots of other
+// chains may be stored in between, so a stop inside that window can leave it
+// behind any number of later snapshots, not only the last one.
+func (node *Node) repairConsensusState() error {
+	last, err := node.persistStore.ReadLastConsensusSnapshot()
+	if err != nil {
+		return err
+	}
+	if last == nil {
+		s, txs := node.persistStore.LastSnapshot()
+		if len(txs) != 1 {
+			return nil
+		}
+		return node.reloadConsensusState(s.Snapshot, txs[0])
+	}
+	recorded, err := node.persistStore.ReadSnapshot(last.PayloadHash())
+	if err != nil || recorded == nil {
+		return fmt.Errorf("ReadSnapshot(%s) => %v", last.PayloadHash(), err)
+	}
+	for offset := recorded.TopologicalOrder + 1; ; {
+		snapshots, transactions, err := node.persistStore.ReadSnapshotWithTransactionsSinceTopology(offset, 500)
+		if err != nil {
+			return err
+		}
+		for i, s := range snapshots {
+			offset = s.TopologicalOrder + 1
+			if len(transactions[i]) != 1 {
+				continue
+			}
+			err = node.reloadConsensusState(s.Snapshot, transactions[i][0])
+			if err != nil {
+				return fmt.Errorf("reloadConsensusState(%v) => %v", s, err)
+			}
+		}
+		if len(snapshots) < 500 {
+			return nil
+		}
+	}
 }
 
 func (node *Node) loadNodeConfig() {
